@@ -5,7 +5,11 @@ working tree on every run; tied to the real library by harness/c16_hist.c (seede
 one process vs the same calls in processes without history; checksums of every data section of libxrl; locale,
 cwd, stderr; retained error objects / results re-read at the end).  The histories are run twice: on the tables as shipped
 (data/kissel_pe.dat is empty there: the Kissel / cascade family only fails) and on the regenerated Kissel configuration, where
-that family succeeds."""
+that family succeeds.  Three builds of library + harness: AddressSanitizer/UBSan (main; the allocator's fill byte differs between the process with and the
+process without history, so that a byte of a returned object the library never wrote differs between them), no sanitizer (real glibc allocator: real block
+re-use), MemorySanitizer (every scalar of a returned object is tested for initialisation).  After every call the harness, playing an application, takes the
+next element of its own strtok / rand / lrand48 sequences and compares the buffers getenv / localtime / asctime / tmpnam / strerror returned, getopt's
+variables, the position of stdin and the buffering of stdout with what an undisturbed C library yields."""
 import os, sys, re, json, time, subprocess, random, hashlib, itertools
 HERE = os.path.dirname(os.path.abspath(__file__))
 sys.path.insert(0, os.path.join(os.path.dirname(HERE), 'tools'))
@@ -43,15 +47,23 @@ def kissel_good_ops(meta, fam):
 DEPRECATION = re.compile(r'^(\w+ has been deprecated and will be removed in a future release of xraylib\.|Please remove all occurrences of this method in your code\.)$')
 
 class Hist:
-    """one run of harness/c16_hist"""
-    def __init__(self, exe, regions, sc):
-        self.exe = exe; self.regions = regions; self.sc = sc; self.n = 0
+    """one run of harness/c16_hist.
+
+    Uninitialised heap memory is call history in its purest form: a field of a returned object that the library never writes holds what the
+    previous owner of the block left there.  AddressSanitizer (the build of the main harness) would hide that — its allocator fills every new
+    block with 0xbe in EVERY process.  So the fill is part of the experiment: the process with a history gets its blocks filled with 0xbe (a
+    recycled block: somebody's old bytes), the process without history gets them zero-filled (what a heap that nobody has used yet hands out).
+    A result that contains a byte the library did not write therefore differs between the two.  (`kind` plain: no sanitizer, the real glibc
+    allocator, real block re-use; `kind` msan: MemorySanitizer, see check_msan.)"""
+    def __init__(self, exe, regions, sc, kind='asan'):
+        self.exe = exe; self.regions = regions; self.sc = sc; self.n = 0; self.kind = kind
     def run(self, mode, lines, env_extra):
         self.n += 1
-        path = self.sc.path('ops_%d.txt' % self.n)
+        path = self.sc.path('ops_%s%d.txt' % (getattr(self, 'tag', ''), self.n))
         with open(path, 'w') as f: f.write('\n'.join(lines) + '\n')
-        env = {k: v for k, v in os.environ.items() if not k.startswith('LC_') and k != 'LANG'}
-        env.update(ASAN_OPTIONS='detect_leaks=0:abort_on_error=0', UBSAN_OPTIONS='print_stacktrace=0')
+        env = {k: v for k, v in os.environ.items() if not k.startswith('LC_') and k != 'LANG' and not k.startswith('MALLOC_')}
+        env.update(ASAN_OPTIONS='detect_leaks=0:abort_on_error=0:max_malloc_fill_size=1048576:malloc_fill_byte=%d' % (0xbe if mode == 'hist' else 0), UBSAN_OPTIONS='print_stacktrace=0',
+                   MSAN_OPTIONS='exitcode=99:halt_on_error=1')
         env.update(env_extra)
         try:
             p = subprocess.run([self.exe, mode, path, self.regions], capture_output=True, text=True, env=env, cwd=self.sc.dir, errors='replace', timeout=600)
@@ -128,14 +140,14 @@ def _run(ctx, replay):
     if restoring is None:
         restoring = 'unknown'
     # ---- 5. the tie: histories on the real library --------------------------------------------------------
-    def harness(objs_, tag):
-        exe_ = sl.link_harness(ctx, objs_, fl, 'c16_hist.c', 'c16_hist' + tag, extra=['-no-pie', '-Wl,-Map=' + ctx.sc.path('hist%s.map' % tag)], meta=meta)
-        regs_ = sl.map_regions(ctx.sc.path('hist%s.map' % tag), ctx.sc.path('o_san') + os.sep)
+    def harness(objs_, tag, fl_=None, odir='o_san', kind='asan'):
+        exe_ = sl.link_harness(ctx, objs_, fl if fl_ is None else fl_, 'c16_hist.c', 'c16_hist' + tag, extra=['-no-pie', '-Wl,-Map=' + ctx.sc.path('hist%s.map' % tag)], meta=meta)
+        regs_ = sl.map_regions(ctx.sc.path('hist%s.map' % tag), ctx.sc.path(odir) + os.sep)
         if len(regs_) < 20 or sum(r[1] for r in regs_) < (1 << 20):
             rep['tie_broken'].append('link map%s: only %d data regions / %d bytes of libxrl found' % (tag, len(regs_), sum(r[1] for r in regs_)))
         regfile = ctx.sc.path('regions%s.txt' % tag)
         with open(regfile, 'w') as f: f.write(''.join('%x %x %s %s\n' % r for r in regs_))
-        hh = Hist(exe_, regfile, ctx.sc); hh.sym = None; hh.tag = tag
+        hh = Hist(exe_, regfile, ctx.sc, kind); hh.sym = None; hh.tag = tag
         return hh, regs_
     H, regs = harness(objs, '')
     exe = H.exe
@@ -147,6 +159,18 @@ def _run(ctx, replay):
         HR, regsR = harness(sl.build_c_kissel(ctx, objs, 'address,undefined', 'san'), 'R')
     except sl.BuildError as ex:
         rep['tie_broken'].append('regenerated-Kissel configuration could not be built (data/kissel -> kissel_pe.dat -> prdata): %s' % str(ex)[:400])
+    # the same sources without any sanitizer (the real glibc allocator: freed blocks are really handed out again, with their old contents) and
+    # under MemorySanitizer (library AND harness instrumented: every scalar of a returned object is tested for initialisation before it is rendered)
+    HP = HM = None
+    try:
+        t_ = time.time()
+        objsP, flP = cbuild.build_lib(ctx.sc, cbuild.REPO, san=None, tag='plain')
+        HP, regsP = harness(objsP, 'P', flP, 'o_plain', 'plain')
+        objsM, flM = cbuild.build_lib(ctx.sc, cbuild.REPO, san='memory', tag='msan', extra=('-fsanitize-memory-track-origins=2',))
+        HM, regsM = harness(objsM, 'M', flM, 'o_msan', 'msan')
+        ctx.tick('c_build_plain_msan', t_)
+    except sl.BuildError as ex:
+        rep['tie_broken'].append('the unsanitized / MemorySanitizer build of the history harness failed: %s' % str(ex)[:400])
     stats = dict(histories=0, ops_in_histories=0, distinct_ops=0, compared=0, state_checks=0, retained_objects=0, retained_error_objects=0, exec_fresh_checked=0,
                  regions=len(regs), region_bytes=sum(r[1] for r in regs), retained_errors_by_op={}, arr_checks=0)
     findings = []      # dict(kind, key, what, ops, env)
@@ -211,6 +235,15 @@ def _run(ctx, replay):
                     findings.append(dict(kind='descriptors', what='the call left the process with %s open file descriptors instead of %s (a descriptor %s): the descriptor table is process-global state' % (
                         m_.group(2), m_.group(1), 'leaked' if int(m_.group(2)) > int(m_.group(1)) else 'closed that was not the call\'s own'), ops=ops[:i + 1], env=env, got=a,
                         expected='as many open descriptors after the call as before it', label=label)); break
+            # hidden cursors of the C library that the application has in progress across the call (strtok, rand, getenv, static buffers, getopt, stdin/stdout)
+            if a is not None:
+                stats['libc_cursor_checks'] = stats.get('libc_cursor_checks', 0) + 1
+                if ' APP!' in a:
+                    marks = re.findall(r' APP!(\w+):(\S*)', a)
+                    findings.append(dict(kind='libc-state', what='the call disturbed C-library state that the APPLICATION had in progress across it (process-global state): ' +
+                                         '; '.join('%s: %s' % (k_, v_.replace('-', ' ').replace('_', ' ')) for k_, v_ in marks), ops=ops[:i + 1], env=env, got=a,
+                                         expected='the application\'s own strtok / rand / lrand48 sequences continue where they were, the buffers getenv / localtime / asctime / tmpnam / strerror returned, getopt\'s variables and the positions of stdin / stdout are untouched',
+                                         label=label, probes=[k_ for k_, _ in marks])); break
             if a is not None and ' LOCALE>' in a:
                 findings.append(dict(kind='locale', what='the call changed the process locale: LC_ALL is now %s' % a[a.index('LOCALE>') + 7:].split(' ')[0], ops=ops[:i + 1], env=env,
                                      got=a, expected='locale as before the call (every category)', label=label, per_call=True)); break
@@ -219,7 +252,12 @@ def _run(ctx, replay):
                 findings.append(dict(kind='stdout', what='the call wrote to standard output (%s): a standard stream is process-global state' % a[a.index('STDOUT+'):][:24], ops=[o], env=env,
                                      got=a, expected='nothing on standard output', label=label)); break
             if a != b:
-                findings.append(dict(kind='result', what='result after history differs from the result in a process without history', ops=ops[:i + 1], env=env,
+                what_ = 'result after history differs from the result in a process without history'
+                if H.kind == 'asan' and a is not None and b is not None and 'bebebebe' in a and 'bebebebe' not in b:
+                    what_ += ' — the difference is the byte pattern 0xbe: memory of a freshly allocated block that the library handed out WITHOUT WRITING it (a recycled block holds its ' \
+                             'previous owner\'s bytes, rendered here as 0xbe; a heap nobody has used yet holds zeros)'
+                if H.kind == 'plain': what_ += ' (unsanitized build, real glibc allocator: blocks released by earlier calls are handed out again with their old contents)'
+                findings.append(dict(kind='result', what=what_, ops=ops[:i + 1], env=env,
                                      got=a, expected=b, label=label)); break
         # state
         stats['state_checks'] += 1
@@ -237,7 +275,7 @@ def _run(ctx, replay):
                 findings.append(dict(kind='cwd', what='working directory changed: %s -> %s' % (s0[2], s1[2]), ops=ops, env=env, label=label))
             if len(s0) > 5 and s0[5] != s1[5]:
                 d0, d1 = s0[5].split(' '), s1[5].split(' ')
-                findings.append(dict(kind='process-state', what='process-global state changed by the history (environment / signal dispositions / signal mask / rounding mode / open descriptors / umask / rand state): %s -> %s' % (
+                findings.append(dict(kind='process-state', what='process-global state changed by the history (environment / signal dispositions / signal mask / rounding mode / open descriptors / umask): %s -> %s' % (
                     [x for x, y in zip(d0, d1) if x != y], [y for x, y in zip(d0, d1) if x != y]), ops=ops, env=env, label=label))
             elif len(s0) > 5: stats['process_state_checks'] = stats.get('process_state_checks', 0) + 1
             diff = [l for l in h['other'] if l.startswith('D ')]
@@ -277,16 +315,48 @@ def _run(ctx, replay):
         groups = g.errno_pairs(npairs)
         fileops = [['ReadFileUser %s %s' % ('~' if f_ == '~' else xrlops.esc(f_), 'E')] for f_ in files + xrlops.SPECIAL_PATHS + ['xv_missing.dat']]
         fileops += [['ReadFileDirUser E'], ['ReadFileDir E'], ['retain-ReadFileDirUser E'], ['ReadFileDir N'], ['ReadFileMissing E']]
+        # (3) heap residue: parser / NIST / radionuclide / crystal calls that allocate and release, IMMEDIATELY followed by a query that hands out a newly
+        # allocated object (add_compound_data on parsed and on hand-written mixtures, CompoundParser, catalogue lookups, crystal copies)
+        heap = g.heap_groups(max(8, npairs // 2))
         stats['errno_groups'] = stats.get('errno_groups', 0) + len(groups); stats['file_exit_path_ops'] = stats.get('file_exit_path_ops', 0) + len(fileops)
-        return g.insert_groups(ops, groups + fileops, g.rng)
+        stats['heap_residue_groups'] = stats.get('heap_residue_groups', 0) + len(heap)
+        return g.insert_groups(ops, groups + fileops + heap, g.rng)
+
+    def check_msan(ops, env, label):
+        """the history once more under MemorySanitizer (library and harness instrumented): a scalar of a returned object that the library never wrote is
+        rendered `UNINIT!`; a branch / libc call of the library on an uninitialised value stops the process with a report.  Either is a result that is
+        not a function of the arguments: it is whatever the memory held before."""
+        if HM is None: return
+        h = HM.run('hist', ops, env)
+        stats['msan_histories'] = stats.get('msan_histories', 0) + 1
+        for i, o in enumerate(ops):
+            a = h['res'].get(i)
+            if a is None: continue
+            stats['msan_ops'] = stats.get('msan_ops', 0) + 1
+            if 'UNINIT!' in a:
+                findings.append(dict(kind='uninitialised', what='the call handed out an object with a field the library never wrote (MemorySanitizer; the field is marked UNINIT! below): '
+                                     'what the caller reads there is whatever earlier calls left in that memory — zeros in a process without history, stale bytes after one',
+                                     ops=ops[:i + 1], env=env, got=a, expected='every field of the returned object is written by the call', label=label, H=HM)); return
+        if h['died_at'] is not None:
+            rpt = re.search(r'WARNING: MemorySanitizer: [^\n]*(?:\n\s+#\d+ [^\n]*){0,5}', h['stderr'])
+            if rpt:
+                findings.append(dict(kind='uninitialised', what='MemorySanitizer stopped the call: the library used an uninitialised value (%s)' % ' '.join(rpt.group(0).split())[:500],
+                                     ops=ops[:h['died_at'] + 1], env=env, got='process stopped by MemorySanitizer', expected='no value that the library did not compute decides anything', label=label, H=HM))
+            else:
+                ctx.notes.append('%s: op `%s` killed the MemorySanitizer harness without a MemorySanitizer report (rc %s): %s' % (label, ops[h['died_at']][:80], h['rc'], h['stderr'][-200:]))
+        elif h['rc'] != 0:
+            rep['tie_broken'].append('%s: MemorySanitizer harness exited %d: %s' % (label, h['rc'], h['stderr'][-300:]))
 
     C_ENV = dict(LC_ALL='C')
     if replay:
         txt = open(replay).read()
         env = dict(re.findall(r'^#env (\w+)=(\S*)$', txt, flags=re.M)) or C_ENV
         ops = split_ops(txt.splitlines())
-        check_history(ops, env, 'replay', insertion=any(opname(o) in INSERTING for o in ops),
-                      H=(HR if (HR is not None and re.search(r'^#config kissel', txt, flags=re.M)) else H))
+        cfg = (re.findall(r'^#config (\w+)', txt, flags=re.M) or ['shipped'])[0]
+        if cfg == 'msan' and HM is not None: check_msan(ops, env, 'replay')
+        else:
+            check_history(ops, env, 'replay', insertion=any(opname(o) in INSERTING for o in ops),
+                          H=(HR if (HR is not None and cfg == 'kissel') else HP if (HP is not None and cfg == 'plain') else H))
     else:
         nh, nops = (4, 2500) if ctx.tier == 'quick' else (30, 12000)
         all_ops = []
@@ -297,8 +367,12 @@ def _run(ctx, replay):
                 ops = split_ops(txt.splitlines()); all_ops += ops
                 kis = bool(re.search(r'^#config kissel', txt, flags=re.M))
                 if kis and HR is None: continue
-                check_history(ops, dict(re.findall(r'^#env (\w+)=(\S*)$', txt, flags=re.M)) or C_ENV, 'corpus ' + fn, insertion=any(opname(o) in INSERTING for o in ops),
+                cenv = dict(re.findall(r'^#env (\w+)=(\S*)$', txt, flags=re.M)) or C_ENV
+                check_history(ops, cenv, 'corpus ' + fn, insertion=any(opname(o) in INSERTING for o in ops),
                               H=(HR if kis else H))
+                if not kis and not any(opname(o) in INSERTING for o in ops):
+                    if HP is not None: check_history(ops, cenv, 'corpus %s (unsanitized build, glibc allocator)' % fn, H=HP)
+                    check_msan(ops, cenv, 'corpus %s (MemorySanitizer)' % fn)
         for i in range(nh):
             g = xrlops.OpGen(random.Random(ctx.rng.getrandbits(64)), meta, files=files)
             ops = g.ops(nops, allow_retain=True)
@@ -308,6 +382,17 @@ def _run(ctx, replay):
             if i % 2 == 1: ops = ['XRayInit'] + ops           # with and without XRayInit
             all_ops += ops
             check_history(ops, C_ENV, 'history %d' % i)
+        # the unsanitized build (real allocator, real block re-use) and the MemorySanitizer build: one generated history each, heap-residue groups included
+        for Hx_, nm_, nx_ in ((HP, 'unsanitized build, glibc allocator', 800 if ctx.tier == 'quick' else 6000), (HM, 'MemorySanitizer', 800 if ctx.tier == 'quick' else 6000)):
+            if Hx_ is None: continue
+            for j_ in range(1 if ctx.tier == 'quick' else 3):
+                g = xrlops.OpGen(random.Random(ctx.rng.getrandbits(64)), meta, files=files)
+                ops = [o for o in g.ops(nx_, allow_retain=True) if opname(o) not in INSERTING]
+                ops = hidden_state_groups(g, ops, 16 if ctx.tier == 'quick' else 40)
+                if j_ % 2 == 1: ops = ['XRayInit'] + ops
+                all_ops += ops
+                if Hx_ is HM: check_msan(ops, C_ENV, 'history %d (%s)' % (j_, nm_))
+                else: check_history(ops, C_ENV, 'history %d (%s)' % (j_, nm_), H=Hx_)
         stats['distinct_ops'] = len(set(all_ops))
         # a history with explicit insertions into the built-in crystal array
         g = xrlops.OpGen(random.Random(ctx.rng.getrandbits(64)), meta, files=files)
@@ -364,7 +449,6 @@ def _run(ctx, replay):
         # later failing calls (direct failures and failures one level down that are propagated) — harness/c04heap.c `err 6..11`
         try:
             from props import c04 as C4
-            from vlib import cbuild
             hexe = ctx.sc.path('c04heap')
             cbuild.link(ctx.sc, objs, [os.path.join(sl.VERIF, 'harness', 'c04heap.c')], hexe, fl + ['-I' + os.path.join(cbuild.REPO, 'src')] + C4.WRAP)
             eg = [['err %d' % k] for k in range(6, 12)]
@@ -436,7 +520,7 @@ def _run(ctx, replay):
                     check_history(ops, C_ENV, 'targeted history %d (%s)' % (rnd, ','.join(ents_g[:4])))
                     if HR is not None and any(e_ in fam for e_ in ents_g):
                         check_history([o for o in ops if opname(o) in fam] + kissel_good_ops(meta, [e_ for e_ in ents_g if e_ in fam]), C_ENV, 'targeted Kissel history %d' % rnd, H=HR)
-                    if any(f['kind'] in ('result', 'tables', 'retained', 'stderr', 'stdout', 'crystal-array', 'descriptors') for f in findings): break
+                    if any(f['kind'] in ('result', 'tables', 'retained', 'stderr', 'stdout', 'crystal-array', 'descriptors', 'libc-state', 'uninitialised') for f in findings): break
 
     # ---- shrink + classify ---------------------------------------------------------------------------------
     def differs(ops, env, kind, H):
@@ -449,6 +533,12 @@ def _run(ctx, replay):
         if kind == 'descriptors':
             h = H.run('hist', ops, env)
             return h['rc'] == 0 and ' FDS:' in (h['res'].get(len(ops) - 1) or '')
+        if kind == 'libc-state':
+            h = H.run('hist', ops, env)
+            return h['rc'] == 0 and ' APP!' in (h['res'].get(len(ops) - 1) or '')
+        if kind == 'uninitialised':
+            h = H.run('hist', ops, env)
+            return 'UNINIT!' in (h['res'].get(len(ops) - 1) or '') or (h['died_at'] == len(ops) - 1 and 'MemorySanitizer' in h['stderr'])
         if kind == 'stderr':
             h = H.run('hist', ops, env)
             return h['rc'] == 0 and bool(stderr_unexpected(h['stderr']))
@@ -463,8 +553,8 @@ def _run(ctx, replay):
 
     def shrink(f):
         ops = list(f['ops']); kind = f['kind']; env = f['env']; Hf = f.get('H', H)
-        if kind not in ('result', 'locale', 'tables', 'retained', 'crystal-array', 'stderr', 'process-state', 'descriptors') or not differs(ops, env, kind, Hf): return ops
-        keep_last = kind in ('result', 'crystal-array', 'descriptors')
+        if kind not in ('result', 'locale', 'tables', 'retained', 'crystal-array', 'stderr', 'process-state', 'descriptors', 'libc-state', 'uninitialised') or not differs(ops, env, kind, Hf): return ops
+        keep_last = kind in ('result', 'crystal-array', 'descriptors', 'libc-state', 'uninitialised')
         n = 2; budget = 120
         while len(ops) > (2 if kind == 'result' else 1) and budget > 0:      # a result needs a history AND the query; a trace can be left by one call
             body = ops[:-1] if keep_last else ops
@@ -519,11 +609,15 @@ def _run(ctx, replay):
             b += '# after this history the last call returned: %s\n# in a process without history it returns:    %s\n' % (f.get('got'), f.get('expected'))
         for k, v in f['env'].items(): b += '#env %s=%s\n' % (k, v)
         if HR is not None and f.get('H') is HR: b += '#config kissel   (tables of the regenerated Kissel configuration: tools/regen_kissel.py)\n'
+        if HP is not None and f.get('H') is HP: b += '#config plain   (library and harness built without sanitizer: the real glibc allocator)\n'
+        if HM is not None and f.get('H') is HM: b += '#config msan   (library and harness built with -fsanitize=memory)\n'
         return b + '\n'.join(f.get('min') or f['ops']) + '\n'
     if new_viol:
         body = '# violation of %s found on the real library (harness/c16_hist.c); minimised history below\n' % ID
         body += body_of(new_viol[0])
-        for f in new_viol[1:4]: body += '\n# also: %s (%d ops)\n' % (f['what'], len(f.get('min') or f['ops']))
+        for f in new_viol[1:4]:
+            body += '\n# also: %s (%d ops)\n' % (f['what'], len(f.get('min') or f['ops']))
+            for l_ in body_of(f).splitlines()[2:][:12]: body += '#    ' + l_[:600] + '\n'
         if broken: body += '\n# broken obligations: %s\n' % json.dumps(dict(proof=rep['proof_broken'], tie=rep['tie_broken'], other=rep['problems']))[:3000]
         for x in explain[:20]: body += '# readonly_footprint: entry %s reaches %s (%s): writes %s, external calls outside the allow-list %s\n' % (x['entry'], x['function'], x['file'], x['writes'], x['exts'])
         for x in explain_user[:10]: body += '# user_mutator_footprint: %s (array argument not NULL) reaches %s (%s): writes %s, external calls outside allow-list + file input %s\n' % (x['entry'], x['function'], x['file'], x['writes'], x['exts'])
@@ -561,7 +655,14 @@ def _run(ctx, replay):
                     'AppFe 1 = all floating-point exception flags raised) -> query that converts a subscript or number (CompoundParser, _CP functions, Refractive_Index*, add_compound_data, '
                     'Crystal_ReadFile)` (history_stats.errno_groups).  Descriptors: the number of open file descriptors is compared after EVERY call (history_stats.fd_checks), and every history '
                     'contains one Crystal_ReadFile per exit path of that function (directory, /dev/null, empty / blank / comment-only file, NULL and missing name, malformed #S, no / two #UCELL, '
-                    'truncated, bad atom line, duplicate name, out-of-range numbers: history_stats.file_exit_path_ops)',
+                    'truncated, bad atom line, duplicate name, out-of-range numbers: history_stats.file_exit_path_ops).  Uninitialised output: EVERY field of every returned object is rendered bit-exactly '
+                    '(add_compound_data: nElements, nAtomsAll, molarMass, Elements, massFractions, nAtoms; NIST / radionuclide records, crystals with all atoms, xrlComplex, string lists); every history contains groups '
+                    '`parser / NIST / radionuclide / crystal calls that allocate and release -> query that hands out a newly allocated object` (history_stats.heap_residue_groups; add_compound_raw = add_compound_data on mixtures '
+                    'the application wrote itself, no other library call in the op); in the AddressSanitizer build the process with history gets new blocks filled with 0xbe and the process without history zero-filled, '
+                    'so a byte the library did not write differs; the corpus and one generated history also run in an unsanitized build (real glibc allocator, real block re-use: history_stats.histories counts them) and under '
+                    'MemorySanitizer (history_stats.msan_ops: a scalar of a returned object that was never written is rendered UNINIT!, a branch on one stops the call).  Hidden C-library cursors: after EVERY call '
+                    '(history_stats.libc_cursor_checks) the harness takes the next token of a strtok tokenisation it has in progress, the next rand() and lrand48() of its sequences, and compares the strings / buffers getenv, '
+                    'localtime, asctime, tmpnam, strerror returned to it, optind / opterr / optopt / optarg, ftell(stdin) + the descriptor offset, the buffering of stdout and localeconv() with what an undisturbed C library yields',
                samples=[dict(call=o) for o in (all_ops[:3] + all_ops[-3:] if not replay else [])] +
                        [dict(finding=f['what'], minimal_history=f.get('min'), env=f['env']) for f in findings[:3]],
                footprint=dict(functions=len(meta['functions']), public=len(meta['classes']), classes={c: sum(1 for v in meta['classes'].values() if v == c) for c in set(meta['classes'].values())},
